@@ -64,7 +64,7 @@ theorem tr_recCas {cfg : Config} {s s' : State} {t : Tid} {site : RSite} {r : Ri
     · rename_i hk; cases h
       have : ok = false := by simpa using hk
       subst this
-      exact .loc (.sRcCasFail _ _ _ _ _ hl)
+      exact .loc (.sRcCasFail _ _ _ _ _ hl hr)
   · rename_i hl
     simp only [need_ok] at h
     obtain ⟨_, hr, h⟩ := h
@@ -74,7 +74,7 @@ theorem tr_recCas {cfg : Config} {s s' : State} {t : Tid} {site : RSite} {r : Ri
     · rename_i hk; cases h
       have : ok = false := by simpa using hk
       subst this
-      exact .loc (.sRcCasFail _ _ _ _ _ hl)
+      exact .loc (.sRcCasFail _ _ _ _ _ hl hr)
   · cases h
 
 theorem tr_muLd {cfg : Config} {s s' : State} {t : Tid} {site : MSite} {obs : Nat}
